@@ -159,7 +159,7 @@ Lemma put_arr a key rest nv pre :
              | None => None
              end
            else if is_missing nv then None
-           else if 100000000 <? i then None
+           else if max_array_backfill <? i - len a then None
            else match put_new rest nv with
                 | None => None
                 | Some inner => Some (VMissing, VArr (a ++ repeat_null (Z.to_nat (i - len a)) ++ [inner]))
@@ -413,7 +413,7 @@ Proof.
       destruct (i <? 0); [discriminate|]. destruct (i <? len a).
       * destruct (nth_z a i); [|discriminate]. destruct (put v rest nv pre) as [[o y]|]; [|discriminate].
         injection H as _ <-. reflexivity.
-      * rewrite Hnv in H. destruct (100000000 <? i); [discriminate|].
+      * rewrite Hnv in H. destruct (max_array_backfill <? i - len _); [discriminate|].
         destruct (put_new rest nv); [|discriminate]. injection H as _ <-. reflexivity.
     + rewrite put_missing, Hne, Hnv in H. destruct (put_new rest nv); [|discriminate].
       injection H as _ <-. reflexivity.
@@ -483,7 +483,7 @@ Proof.
         rewrite (put_result_not_missing _ _ _ _ _ _ Hnv P) in H. injection H as _ <-.
         rewrite get_arr, Hne, <- Hk.
         rewrite (nth_z_replace_eq _ _ _ _ N). eapply IH; eauto.
-      * rewrite Hnv in H. destruct (100000000 <? i); [discriminate|].
+      * rewrite Hnv in H. destruct (max_array_backfill <? i - len _); [discriminate|].
         destruct (put_new rest nv) as [inner|] eqn:N; [|discriminate]. injection H as _ <-.
         rewrite get_arr, Hne, <- Hk.
         replace i with (len a + Z.of_nat (Z.to_nat (i - len a))) at 2 by lia.
@@ -554,7 +554,7 @@ Proof.
         rewrite len_replace_nth. destruct (Z.ltb_spec i (len a)); [|lia].
         rewrite (nth_z_replace_eq _ _ _ _ N), (IH _ _ _ _ _ Hnv P), (put_result_not_missing _ _ _ _ _ _ Hnv P).
         rewrite (replace_nth_same _ _ _ (nth_z_replace_eq _ _ _ _ N)). reflexivity.
-      * rewrite Hnv in H. destruct (100000000 <? i); [discriminate|].
+      * rewrite Hnv in H. destruct (max_array_backfill <? i - len _); [discriminate|].
         destruct (put_new rest nv) as [inner|] eqn:N; [|discriminate]. injection H as _ <-.
         set (a' := (a ++ repeat_null (Z.to_nat (i - len a)) ++ [inner])%list).
         assert (Ni : nth_z a' i = Some inner).
@@ -624,7 +624,7 @@ Proof.
     destruct (i <? 0); [discriminate|]. destruct (i <? len a).
     + destruct (nth_z a i); [|discriminate]. destruct (put v rest nv pre) as [[o y]|]; [|discriminate].
       injection H as _ <-. reflexivity.
-    + destruct (is_missing nv); [discriminate|]. destruct (100000000 <? i); [discriminate|].
+    + destruct (is_missing nv); [discriminate|]. destruct (max_array_backfill <? i - len _); [discriminate|].
       destruct (put_new rest nv); [|discriminate]. injection H as _ <-. reflexivity.
   - rewrite put_missing, Hne in H. destruct (is_missing nv); [discriminate|].
     destruct (put_new rest nv); [|discriminate]. injection H as _ <-. reflexivity.
@@ -683,7 +683,7 @@ Proof.
         rewrite N in Hq. exact Hq.
       * rewrite nth_z_replace_neq; [reflexivity|]. intros ->. exact (Hsep _ A AJ).
     + destruct (is_missing nv) eqn:Hnv; [discriminate|].
-      destruct (100000000 <? i); [discriminate|].
+      destruct (max_array_backfill <? i - len _); [discriminate|].
       destruct (put_new p' nv) as [inner|]; [|discriminate]. injection H as _ <-.
       rewrite !get_arr, Hqe.
       destruct (parse_index t) as [j|] eqn:PJ; [|reflexivity].
@@ -770,7 +770,7 @@ Proof.
       * assert (j = i) by congruence. subst j.
         rewrite (nth_z_replace_eq _ _ _ _ N). rewrite N in G. eapply IH; eauto.
       * rewrite nth_z_replace_neq; [left; exact G|]. intros ->. exact (Hsep _ A AJ).
-    + rewrite Hnv in H. destruct (100000000 <? i); [discriminate|].
+    + rewrite Hnv in H. destruct (max_array_backfill <? i - len _); [discriminate|].
       destruct (put_new p' nv) as [inner|] eqn:N; [|discriminate]. injection H as _ <-.
       rewrite get_arr, Hqe.
       destruct (parse_index t) as [j|] eqn:PJ; [|left; reflexivity].
